@@ -661,3 +661,54 @@ func swapInFlight(a *AppSnap) bool {
 	}
 	return false
 }
+
+// ExcludedShape names the listed known finding whose trigger the op would be in the current state, when that finding's
+// exclusion is switched on ("" otherwise). The generators avoid these shapes by construction; the trace minimiser uses
+// the same predicate so that a reduced history cannot slide into a listed finding.
+func (w *World) ExcludedShape(op Op) string {
+	s := w.Shim
+	switch op.Kind {
+	case OpFirePh:
+		a := w.Last.Apps[op.App]
+		if a == nil {
+			return ""
+		}
+		if Excluded("ph-timeout-not-running-mid-swap") && a.State != "Running" && a.State != "Completing" && swapInFlight(a) {
+			return "ph-timeout-not-running-mid-swap"
+		}
+		if Excluded("soft-timeout-empty-app") && w.softWithoutRealAsk(op.App) {
+			return "soft-timeout-empty-app"
+		}
+	case OpRelease:
+		if Excluded("cancel-real-ask-mid-swap") && w.realAskMidSwap(op.Key) {
+			return "cancel-real-ask-mid-swap"
+		}
+		if k := s.Keys[op.Key]; k != nil && Excluded("soft-timeout-empty-app") {
+			if a := w.Last.Apps[k.App]; a != nil && a.State == "Resuming" && !k.Spec.Placeholder {
+				return "soft-timeout-empty-app"
+			}
+		}
+	case OpAddAsk, OpReportBound:
+		if Excluded("ask-for-completing-app") {
+			if sa := s.Apps[op.App]; sa != nil && len(sa.States) > 0 && sa.States[len(sa.States)-1] == "Completing" && s.Keys[op.Key] == nil {
+				return "ask-for-completing-app"
+			}
+		}
+		if Excluded("reqnode-unschedulable") && op.ReqNode != "" {
+			if n := s.Nodes[op.ReqNode]; n != nil && !n.Schedulable {
+				return "reqnode-unschedulable"
+			}
+		}
+	case OpDrainNode:
+		if Excluded("reqnode-unschedulable") && w.nodeRequiredByOutstanding(op.Node) {
+			return "reqnode-unschedulable"
+		}
+	case OpAddNode:
+		// a node that registers as draining while an outstanding ask already requires it cannot happen: ids are fresh
+	case OpForeign, OpForeignDel:
+		if Excluded("foreign-alloc-stale-node-score") {
+			return "foreign-alloc-stale-node-score"
+		}
+	}
+	return ""
+}
